@@ -97,6 +97,7 @@ structure State where
   delayed : List ReqId := []
   loaders : List ReqId := []   -- requests whose load goroutine is in WaitUntilRunning
   timerCbs : List Rid := []
+  unloaders : List Rid := []   -- expireRunner calls parked on the refMu of a runner that is still loading
   maxRunners : Nat := 0      -- OLLAMA_MAX_LOADED_MODELS (0 = not set yet)
   maxQueue : Nat := 512
   defaultSession : Nat := 1  -- OLLAMA_KEEP_ALIVE class
@@ -202,6 +203,7 @@ inductive Act
   | delayedRequeue (q : ReqId)
   | finishSend (q : ReqId)
   | timerCb (r : Rid)
+  | unloadRun (r : Rid)                    -- a parked expireRunner call gets refMu
 deriving Repr, DecidableEq
 
 def setRunner (s : State) (r : Rid) (x : Runner) : State := { s with runners := upd s.runners r x }
@@ -273,7 +275,9 @@ def step (v : Variant) (s : State) : Act → Option State
   | .explicitUnload m =>
     match lookup s.loaded m with
     | none => some s
-    | some r => if (s.runners r).refMuHeld then none else some (triggerExpire s r)
+    | some r =>
+      -- while the load goroutine holds refMu the call parks (holding loadedMu) and runs afterwards
+      if (s.runners r).refMuHeld then some { s with unloaders := r :: s.unloaders } else some (triggerExpire s r)
   | .pTake =>
     match s.ppc, s.pendingQ with
     | .idle, q :: rest =>
@@ -397,6 +401,11 @@ def step (v : Variant) (s : State) : Act → Option State
     if r ∈ s.timerCbs ∧ ¬ (s.runners r).refMuHeld then
       let s := { s with timerCbs := s.timerCbs.erase r }
       some { setRunner s r (s.runners r).stopTimer with expiredQ := s.expiredQ ++ [r] }
+    else none
+
+  | .unloadRun r =>
+    if r ∈ s.unloaders ∧ ¬ (s.runners r).refMuHeld then
+      some (triggerExpire { s with unloaders := s.unloaders.erase r } r)
     else none
 
 /-- run a trace of actions; `none` if some action is not enabled -/
